@@ -1153,8 +1153,13 @@ def overlap_case(ctx, case):
             return repr(sorted((k_, repr(v)) for k_, v in vars(q).items()
                                if k_ != 'context')), len(buf.read())
         return rd, rd()
-    fa, alone_a = make(pa, case['ta'], ops[0])
-    fb, alone_b = make(pb, case['tb'], ops[1])
+    try:
+        fa, alone_a = make(pa, case['ta'], ops[0])
+        fb, alone_b = make(pb, case['tb'], ops[1])
+    except Exception as e:
+        # the same call alone, before anything overlaps
+        ctx.fail('overlap', 'F0-call-alone-raises', case, exc=e)
+        return
     try:
         ra, rb, ran = run_interleaved(fa, fb, case['k'])
     except Exception as e:
